@@ -8,34 +8,34 @@ Context {D : Type}.
 
 Theorem C11_run_never_exceeds_capacity : forall (root : tree D) input d c r,
   run root input d (mkFmt (Some c) []) = Val r -> (length (r_out r) <= c)%nat.
-Proof. exact run_never_exceeds_capacity. Qed.
+Proof. apply run_never_exceeds_capacity. Qed.
 
 Theorem C11_cap_fits : forall (root : tree D) input d c r_inf,
   run root input d (mkFmt None []) = Val r_inf -> (length (r_out r_inf) <= c)%nat ->
   run root input d (mkFmt (Some c) []) = Val r_inf.
-Proof. exact cap_fits. Qed.
+Proof. apply cap_fits. Qed.
 
 Theorem C11_cap_prefix : forall (root : tree D) input d c r_c r_inf, wb_tree root ->
   run root input d (mkFmt (Some c) []) = Val r_c -> run root input d (mkFmt None []) = Val r_inf ->
   is_prefix (r_out r_c) (r_out r_inf).
-Proof. exact cap_prefix. Qed.
+Proof. apply cap_prefix. Qed.
 
 Theorem C11_cap_overflow : forall (root : tree D) input d c r_c r_inf, wb_tree root ->
   run root input d (mkFmt (Some c) []) = Val r_c -> run root input d (mkFmt None []) = Val r_inf ->
   r_err r_inf = None -> (c < length (r_out r_inf))%nat -> r_err r_c = Some (std_error OutOfMemory).
-Proof. exact cap_overflow. Qed.
+Proof. apply cap_overflow. Qed.
 
 Theorem C11_push_fits : forall f c f', fits f -> push f c = Ok f' -> fits f'.
-Proof. exact push_fits. Qed.
+Proof. apply push_fits. Qed.
 
 Theorem C11_push_error_is_225 : forall f c e, push f c = Err e -> e = OutOfMemory.
-Proof. exact push_error_is_225. Qed.
+Proof. apply push_error_is_225. Qed.
 
 Theorem C11_push_appends : forall f c f', push f c = Ok f' -> buf f' = buf f ++ c /\ cap f' = cap f.
-Proof. exact push_appends. Qed.
+Proof. apply push_appends. Qed.
 
 Theorem C11_run_total : forall (root : tree D) input d f, exists r, run root input d f = Val r.
-Proof. exact run_total. Qed.
+Proof. apply run_total. Qed.
 
 End C11_statements.
 
